@@ -79,7 +79,9 @@ func TestVerifC12Upload(t *testing.T) {
 		wellTyped := false
 		var lastStored *telemetry.Report
 		for i := 0; i < nreq; i++ {
-			method := rapid.SampledFrom([]string{"POST", "POST", "POST", "POST", "POST", "GET", "HEAD", "PUT", "DELETE", "PATCH", "OPTIONS"}).Draw(t, "method")
+			method := rapid.SampledFrom([]string{"POST", "POST", "POST", "POST", "POST", "GET", "HEAD", "PUT", "DELETE", "PATCH", "OPTIONS",
+				// method tokens are case-sensitive: these are not POST
+				"post", "Post", "pOST", "POSt", "POSTS", "POS", "XPOST", "CONNECT", "TRACE", "PROPFIND"}).Draw(t, "method")
 			path := rapid.SampledFrom([]string{"/upload/2024-01-01", "/upload/", "/upload/x/y", "/upload/2024-01-01/0.5.json", "/upload/..%2f..%2fx"}).Draw(t, "path")
 			rep := vgen.ApprovedReport(t, ucfg)
 			class := rapid.SampledFrom([]string{"valid", "valid", "valid", "mutated", "mutated", "mutated", "bytes", "truncated", "wrongtype", "trailing-garbage", "padded-over-limit", "too-big", "null-program", "null", "huge-x", "just-below-limit", "same-name-again"}).Draw(t, "class")
